@@ -168,6 +168,7 @@ type World struct {
 	Trace []Op
 	// when set, a Put/Remove is allowed to lose against a concurrent op (A engine handles oracles itself)
 	ledger *Ledger
+	relocs int
 }
 
 // NewWorld creates a fresh MemFS, installs it and opens a store on it.
@@ -306,6 +307,7 @@ type Violation struct {
 	History  string `json:"history,omitempty"`
 	Replay   any    `json:"replay,omitempty"`
 	Known    string `json:"known,omitempty"` // id of the matching known finding
+	Oracle   string `json:"oracle,omitempty"` // which oracle raised it: map, fsck, ledger, handles, reclaim, ...
 }
 
 func (v *Violation) Error() string {
@@ -313,7 +315,11 @@ func (v *Violation) Error() string {
 }
 
 func viol(sym, format string, args ...any) *Violation {
-	return &Violation{Symptom: sym, Detail: fmt.Sprintf(format, args...)}
+	return &Violation{Symptom: sym, Detail: fmt.Sprintf(format, args...), Oracle: "map"}
+}
+
+func violO(oracle, sym, format string, args ...any) *Violation {
+	return &Violation{Symptom: sym, Detail: fmt.Sprintf(format, args...), Oracle: oracle}
 }
 
 // countingCtx is a context whose Err() starts reporting DeadlineExceeded from
@@ -558,6 +564,7 @@ func (w *World) Step(op Op) *Violation {
 			after := w.locateAll()
 			for d, b := range relocBefore {
 				if a, ok := after[d]; ok && a != b {
+					w.relocs++
 					w.ledger.superseded(b, fmt.Sprintf("relocation of key %x by op %d", d, len(w.Trace)-1))
 				}
 			}
@@ -592,7 +599,7 @@ func (w *World) reopen(mode int) *Violation {
 	}
 	if _, open := w.FS.HandleCount(); open != 0 {
 		hs := w.FS.OpenHandles()
-		return viol("handle:leaked", "%d descriptors still open after Close: %v", open, hs)
+		return violO("handles", "handle:leaked", "%d descriptors still open after Close: %v", open, hs)
 	}
 	switch mode {
 	case 1:
